@@ -604,15 +604,16 @@ func (eng *Engine) attachSim(fp *FuncProof) {
 	// the fold starts at position 0 of the function's own data (top-level machines only)
 	if fp.fc.SimOpts["init"] != "none" {
 		fp.s0.assume(ex.initAxiom(sim.arr))
-		if cfg.Variant == "value" {
-			// lemma ws-prefix (base/step discharged as spec/wsprefix/*): throughout the leading
-			// whitespace run the spec run stays in its initial configuration
-			w := App("wsrun$"+sim.arr.Name, BV(64), I64(0), n)
-			jv := Fresh("q.ws", BV(64))
-			before := q8(tab.ID(rjvSpecLocal{Ctl: rjvSpecBefore, Ctx: rjvSpecCtxTop}))
-			fp.s0.qfacts = append(fp.s0.qfacts, &QFact{Guard: True, BV: jv, Lo: I64(0), Hi: Add(w, I64(1)),
-				Body: And(Eq(ex.Rq(sim.arr, jv), before), Eq(ex.Rdepth(sim.arr, jv), I64(0))), Name: "wsprefix", Seeds: []*Term{w}})
-		}
+	}
+	if cfg.Variant == "value" {
+		// lemma ws-prefix (base/step discharged as spec/wsprefix/*): if the run is in its initial
+		// configuration at the start of data, it stays there throughout the leading whitespace run
+		w := App("wsrun$"+sim.arr.Name, BV(64), sv.Off, n)
+		jv := Fresh("q.ws", BV(64))
+		before := q8(tab.ID(rjvSpecLocal{Ctl: rjvSpecBefore, Ctx: rjvSpecCtxTop}))
+		atStart := And(Eq(ex.Rq(sim.arr, sv.Off), before), Eq(ex.Rdepth(sim.arr, sv.Off), I64(0)))
+		fp.s0.qfacts = append(fp.s0.qfacts, &QFact{Guard: atStart, BV: jv, Lo: sv.Off, Hi: Add(w, I64(1)),
+			Body: And(Eq(ex.Rq(sim.arr, jv), before), Eq(ex.Rdepth(sim.arr, jv), I64(0))), Name: "wsprefix", Seeds: []*Term{w}})
 	}
 }
 
